@@ -9,9 +9,14 @@ checked by the C12 correspondence stream.
 -/
 import VaxisModel.Props.C07
 import VaxisModel.Props.C01Display
+import VaxisModel.Lemmas.C12Vocab
 
 namespace VaxisModel.Props.C12
 open VaxisModel.Model.Render VaxisModel.Spec VaxisModel.Spec.Display VaxisModel.Lemmas.RenderGate
+open VaxisModel.Model.Emu (Emu EOp G M runOps)
+open VaxisModel.Model.C12Compose VaxisModel.Lemmas.C12Sim VaxisModel.Lemmas.C12Vocab
+open VaxisModel.Props.C01 (CursorAs Agree)
+open VaxisModel.Props.C01Display (FrameIn HState mkFrame stepH FrameInOk Ready)
 
 /-- What Vaxis detects inside the emulator that matters to the renderer and writer: no direct
     colour, no styled underlines, no explicit width, no synchronized output (the emulator's replies
@@ -89,5 +94,203 @@ theorem emu_reference_display (cw : String → Nat) (hsp : cw "20" = 1) (rows co
     ((fi0 :: fis).foldl (C01Display.stepH cw emuCaps) ⟨Term.init cols rows, blankGrid cols rows, {}, ""⟩).t.grid
       = Expected.expected cw emuCaps fi.next :=
   (C01Display.history_displays cw emuCaps hsp rows cols fi0 fis h0 hok fi hlast).1
+
+/-! ### The composition: renderer model ∘ wire ∘ emulator model, for all frame histories -/
+
+/-- The emulator state `e` shows the application's frame `fi`: every cell of the active grid shows
+    the corresponding cell of the application's screen (`Spec.Expected`, the same meaning of the
+    screen as in C01: grapheme bytes, width, colours and attributes as displayed under `emuCaps`,
+    underline, hyperlink URL and parameters; the cells covered by a wide glyph are read by shadowing),
+    and the hardware cursor is hidden, or visible at the requested position in the requested shape. -/
+def Shows (dec : String → G) (cw : String → Nat) (fi : FrameIn) (e : Emu) : Prop :=
+  GridRel dec (Expected.expected cw emuCaps fi.next) e.active ∧
+  (if fi.cursor.visible then
+     e.mode.dectcem = true ∧ e.cur.row = fi.cursor.row ∧ e.cur.col = fi.cursor.col ∧ e.cur.shape = (fi.cursor.style : Int)
+   else e.mode.dectcem = false)
+
+/-- What the composition asks of a frame beyond C01's `FrameInOk`: every grapheme has width ≤ 2 and,
+    when its width is positive, at least one byte; hyperlink parameter strings contain no `;`; the
+    cursor shape value fits a CSI parameter. -/
+def EmuFrameOk (dec : String → G) (cw : String → Nat) (fi : FrameIn) : Prop :=
+  (∀ r ∈ fi.next, ∀ c ∈ r, CellOk dec cw c) ∧ fi.cursor.style ≤ 65535
+
+/-- The emulator model fed, frame after frame, what the renderer model writes (`opsOfToks`: the
+    parsed sequences of the tokens), alongside C01's history state (terminal of reference, `last`
+    buffer, cursor and pointer shape of the previous frame). -/
+def runFrames (dec : String → G) (cw : String → Nat) : HState → Emu → List FrameIn → M Emu
+  | _, e, [] => .ok e
+  | s, e, fi :: rest => do
+    let e' ← runOps e (opsOfToks dec cw (renderFrame cw (mkFrame emuCaps s fi)).2)
+    runFrames dec cw (stepH cw emuCaps s fi) e' rest
+
+/-- What is carried from frame to frame. -/
+structure Linked (dec : String → G) (cw : String → Nat) (s : HState) (e : Emu) (rows cols : Nat) : Prop where
+  ready : Ready s.t s.last rows cols
+  cursor : CursorAs s.t s.cursor
+  sim : DSim dec s.t e rows cols
+
+/-- **One frame.** From linked states, the emulator model runs the frame's sequences without panic,
+    ends linked again, and shows the application's screen and cursor. -/
+theorem emu_frame_shows (dec : String → G) (cw : String → Nat) (hsp : cw "20" = 1) (hd : dec "20" = [32]) (hemp : dec "" = [])
+    (rows cols : Nat) (s : HState) (e : Emu) (fi : FrameIn) (hl : Linked dec cw s e rows cols)
+    (hag : fi.refresh = false → Agree cw emuCaps s.t s.last)
+    (hok : FrameInOk cw emuCaps rows cols fi) (hok2 : EmuFrameOk dec cw fi) :
+    ∃ e', runOps e (opsOfToks dec cw (renderFrame cw (mkFrame emuCaps s fi)).2) = .ok e' ∧
+      Linked dec cw (stepH cw emuCaps s fi) e' rows cols ∧
+      Agree cw emuCaps (stepH cw emuCaps s fi).t (stepH cw emuCaps s fi).last ∧
+      Shows dec cw fi e' := by
+  obtain ⟨r1, a1, g1, b1⟩ := C01Display.frame_step cw emuCaps hsp rows cols s fi hl.ready hag hok
+  have hcur : CursorAs (stepH cw emuCaps s fi).t fi.cursor := by
+    refine C01.cursor_as_requested cw cw (mkFrame emuCaps s fi) s.t ?_ hl.cursor
+    rw [hl.ready.trows, hl.ready.tcols]; exact hok.2.2.2.2
+  have h59 : 59 ∉ dec "" := by rw [hemp]; simp
+  have hvoc := frame_ok dec cw (mkFrame emuCaps s fi) rfl rfl rfl rfl hsp (by rw [hd]; simp) h59 hok2.1 hok2.2
+  obtain ⟨e', hr, hs'⟩ := run_sim cw _ s.t e hl.sim b1 hvoc
+  refine ⟨e', hr, ⟨r1, hcur, hs'⟩, a1, ?_, ?_⟩
+  · have := hs'.grid
+    rw [show (run cw s.t (renderFrame cw (mkFrame emuCaps s fi)).2).grid = Expected.expected cw emuCaps fi.next from g1] at this
+    exact this
+  · have hc := hcur
+    unfold CursorAs at hc
+    split
+    · rename_i hv
+      simp only [hv, if_true] at hc
+      obtain ⟨c1, c2, c3, c4, c5⟩ := hc
+      have hvis := hs'.vis; have hrow := hs'.row; have hcol := hs'.col; have hpw := hs'.pw; have hsh := hs'.shape
+      change (stepH cw emuCaps s fi).t.cursorVisible = e'.mode.dectcem at hvis
+      change ((stepH cw emuCaps s fi).t.row : Int) = e'.cur.row at hrow
+      change ((stepH cw emuCaps s fi).t.col : Int) = _ at hcol
+      change (stepH cw emuCaps s fi).t.pw = _ at hpw
+      change ((stepH cw emuCaps s fi).t.cursorShape : Int) = e'.cur.shape at hsh
+      rw [c4] at hpw
+      have hnp : ¬ (e'.cur.col ≥ (cols : Int)) := by intro h; simp [h] at hpw
+      rw [if_neg hnp] at hcol
+      refine ⟨by rw [← hvis]; exact c1, by omega, by omega, by rw [← hsh, c5]⟩
+    · rename_i hv
+      simp only [hv] at hc
+      have hvis := hs'.vis
+      change (stepH cw emuCaps s fi).t.cursorVisible = e'.mode.dectcem at hvis
+      rw [← hvis]; exact hc
+
+/-- **Histories, from any linked pair that still shows the previous frame.** -/
+theorem emu_history_shows (dec : String → G) (cw : String → Nat) (hsp : cw "20" = 1) (hd : dec "20" = [32]) (hemp : dec "" = [])
+    (rows cols : Nat) :
+    ∀ (fis : List FrameIn) (s : HState) (e : Emu), Linked dec cw s e rows cols → Agree cw emuCaps s.t s.last →
+      (∀ fi ∈ fis, FrameInOk cw emuCaps rows cols fi ∧ EmuFrameOk dec cw fi) → ∀ fi, fis.getLast? = some fi →
+      ∃ e', runFrames dec cw s e fis = .ok e' ∧ Shows dec cw fi e' := by
+  intro fis
+  induction fis with
+  | nil => intro s e _ _ _ fi h; simp at h
+  | cons a rest ih =>
+    intro s e hl hag hok fi hlast
+    obtain ⟨e1, hr1, hl1, ag1, sh1⟩ := emu_frame_shows dec cw hsp hd hemp rows cols s e a hl (fun _ => hag)
+      (hok a (by simp)).1 (hok a (by simp)).2
+    cases rest with
+    | nil =>
+      simp only [List.getLast?_singleton, Option.some.injEq] at hlast
+      subst hlast
+      exact ⟨e1, by simp only [runFrames, hr1, bind, Except.bind], sh1⟩
+    | cons b rest' =>
+      rw [List.getLast?_cons_cons] at hlast
+      obtain ⟨e2, hr2, sh2⟩ := ih (stepH cw emuCaps s a) e1 hl1 ag1 (fun fi h => hok fi (by simp [h])) fi hlast
+      exact ⟨e2, by simp only [runFrames, hr1, bind, Except.bind]; exact hr2, sh2⟩
+
+/-- The reference display at start-up: blank, cursor hidden (Vaxis hides the cursor when it starts). -/
+def startDisplay (cols rows : Nat) : Term := { Term.init cols rows with cursorVisible := false }
+
+def startState (cols rows : Nat) : HState := ⟨startDisplay cols rows, blankGrid cols rows, {}, ""⟩
+
+theorem start_ready (cols rows : Nat) : Ready (startDisplay cols rows) (blankGrid cols rows) rows cols := by
+  have h := C01Display.init_ready cols rows
+  exact ⟨h.rest, h.bad, h.lp, h.trows, h.tcols, h.glen, h.llen, h.gcols, h.lcols, h.wf⟩
+
+/-- **C12, composition theorem, for all frame histories.** Take any emulator state `e0` that shows
+    the blank screen with the cursor hidden (`DSim … (startDisplay cols rows) e0`; `emu_start_related`
+    gives one for every size: `New()`, `resize`, `CSI ? 25 l`). For every history of admissible frames
+    (C01's `FrameInOk` at the capability set detected inside the emulator, plus `EmuFrameOk`), the
+    first one a refresh (as Vaxis forces after a resize), feeding the emulator model the parsed
+    sequences of what the renderer model writes, frame after frame, never panics, and after the last
+    frame — hence, the hypothesis being prefix closed, after EVERY frame — the emulator's grid shows
+    the application's screen cell for cell (grapheme, width, colours, attributes, underline,
+    hyperlink and its parameters) and its cursor is hidden or visible at the requested position in
+    the requested shape. -/
+theorem emu_shows_application (dec : String → G) (cw : String → Nat) (hsp : cw "20" = 1) (hd : dec "20" = [32]) (hemp : dec "" = [])
+    (rows cols : Nat) (e0 : Emu) (h0 : DSim dec (startDisplay cols rows) e0 rows cols)
+    (fi0 : FrameIn) (fis : List FrameIn) (hr0 : fi0.refresh = true)
+    (hok : ∀ fi ∈ fi0 :: fis, FrameInOk cw emuCaps rows cols fi ∧ EmuFrameOk dec cw fi)
+    (fi : FrameIn) (hlast : (fi0 :: fis).getLast? = some fi) :
+    ∃ e', runFrames dec cw (startState cols rows) e0 (fi0 :: fis) = .ok e' ∧ Shows dec cw fi e' := by
+  have hl : Linked dec cw (startState cols rows) e0 rows cols :=
+    ⟨start_ready cols rows, by simp [CursorAs, startState, startDisplay], h0⟩
+  obtain ⟨e1, hr1, hl1, ag1, sh1⟩ := emu_frame_shows dec cw hsp hd hemp rows cols (startState cols rows) e0 fi0 hl
+    (fun h => by rw [hr0] at h; exact absurd h (by simp)) (hok fi0 (by simp)).1 (hok fi0 (by simp)).2
+  cases fis with
+  | nil =>
+    simp only [List.getLast?_singleton, Option.some.injEq] at hlast
+    subst hlast
+    exact ⟨e1, by simp only [runFrames, hr1, bind, Except.bind], sh1⟩
+  | cons b rest =>
+    rw [List.getLast?_cons_cons] at hlast
+    obtain ⟨e2, hr2, sh2⟩ := emu_history_shows dec cw hsp hd hemp rows cols (b :: rest) _ e1 hl1 ag1
+      (fun fi h => hok fi (by simp [h])) fi hlast
+    exact ⟨e2, by simp only [runFrames, hr1, bind, Except.bind]; exact hr2, sh2⟩
+
+/-- A start state exists for every size 1×1 … 65535²: the emulator after `New()`, `resize(w, h)` and
+    `CSI ? 25 l` shows the blank screen with the cursor hidden. -/
+theorem emu_start_related (dec : String → G) (hemp : dec "" = []) (w h : Int) (hw1 : 1 ≤ w) (hw2 : w ≤ 65535)
+    (hh1 : 1 ≤ h) (hh2 : h ≤ 65535) :
+    ∃ e0 e1, Model.Emu.Emu.new Model.Emu.Fixes.current w h = .ok e0 ∧
+      runOps e0 [.csi [63, 108] [(25, [])]] = .ok e1 ∧
+      DSim dec (startDisplay w.toNat h.toNat) e1 h.toNat w.toNat := by
+  have hs := dsim_init (dec := dec) hemp w h hw1 hw2 hh1 hh2
+  obtain ⟨e1, hr, hs1⟩ := decrst_sim (fun _ => 1) hs
+  exact ⟨_, e1, Lemmas.EmuRefine.new_eq w h (by omega) (by omega), hr, hs1⟩
+
+/-! ### Non-vacuity -/
+
+/-- A width function and a byte decoding for the example: "" has width 0 and no bytes, "57" is wide. -/
+def cwEx : String → Nat := fun g => if g = "" then 0 else if g = "57" then 2 else 1
+def decEx : String → G := fun s => if s = "" then [] else if s = "20" then [32] else [97]
+
+def grid1 : Grid := [[({ g := "57" } : Cell), {}, { g := "61", style := { fg := 16777217, attr := 2, link := "68", linkParams := "69" } }]]
+def grid2 : Grid := [[({ g := "62" } : Cell), { g := "63" }, { g := "61", style := { fg := 16777217, attr := 2 } }]]
+
+/-- All hypotheses of `emu_shows_application` hold for a two-frame history on a 3×1 emulator started
+    as `emu_start_related` says (a refresh with a wide glyph and a hyperlinked, coloured, bold cell;
+    then a diff frame that replaces the wide glyph by two narrow ones, drops the hyperlink and shows
+    the cursor): the theorem applies to a concrete non-trivial history. -/
+example :
+    let fi0 : FrameIn := ⟨true, grid1, {}, ""⟩
+    let fi1 : FrameIn := ⟨false, grid2, { visible := true, col := 1, style := 3 }, "text"⟩
+    ∃ e0 e1 e', Model.Emu.Emu.new Model.Emu.Fixes.current 3 1 = .ok e0 ∧
+      runOps e0 [.csi [63, 108] [(25, [])]] = .ok e1 ∧
+      runFrames decEx cwEx (startState 3 1) e1 [fi0, fi1] = .ok e' ∧ Shows decEx cwEx fi1 e' := by
+  intro fi0 fi1
+  obtain ⟨e0, e1, h0, h1, hs⟩ := emu_start_related decEx rfl 3 1 (by decide) (by decide) (by decide) (by decide)
+  have hcells : ∀ (g : Grid), (g = grid1 ∨ g = grid2) →
+      ∀ r ∈ g, ∀ c ∈ r, (c.sixel = false ∧ 0 ≤ c.w ∧ Lemmas.RenderDisplay.WidthOk cwEx emuCaps c) ∧ CellOk decEx cwEx c := by
+    intro g hg r hr c hc
+    rcases hg with rfl | rfl <;>
+    · simp only [grid1, grid2, List.mem_cons, List.not_mem_nil, or_false] at hr
+      subst hr
+      simp only [List.mem_cons, List.not_mem_nil, or_false] at hc
+      rcases hc with rfl | rfl | rfl <;> exact ⟨⟨rfl, by decide, Or.inl rfl⟩, by decide, by decide, by decide⟩
+  have hfits : ∀ (g : Grid), (g = grid1 ∨ g = grid2) → C01.Fits cwEx g := by
+    intro g hg r hr
+    rcases hg with rfl | rfl <;>
+    · simp only [grid1, grid2, List.mem_cons, List.not_mem_nil, or_false] at hr
+      subst hr
+      simp [C01.FitsRow, Expected.cellWidth, cwEx]
+  obtain ⟨e', hr, hsh⟩ := emu_shows_application decEx cwEx rfl rfl rfl 1 3 e1 hs fi0 [fi1] rfl
+    (by
+      intro fi hfi
+      simp only [List.mem_cons, List.not_mem_nil, or_false] at hfi
+      rcases hfi with rfl | rfl
+      · exact ⟨⟨rfl, by decide, hfits _ (Or.inl rfl), fun r hr c hc => (hcells _ (Or.inl rfl) r hr c hc).1,
+          fun h => absurd h (by decide)⟩, fun r hr c hc => (hcells _ (Or.inl rfl) r hr c hc).2, by decide⟩
+      · exact ⟨⟨rfl, by decide, hfits _ (Or.inr rfl), fun r hr c hc => (hcells _ (Or.inr rfl) r hr c hc).1,
+          fun _ => by decide⟩, fun r hr c hc => (hcells _ (Or.inr rfl) r hr c hc).2, by decide⟩)
+    fi1 rfl
+  exact ⟨e0, e1, e', h0, h1, hr, hsh⟩
 
 end VaxisModel.Props.C12
